@@ -1,4 +1,5 @@
 import NssVerif.Model.Pipeline
+import NssVerif.Props.C10
 
 /-!
 # C14 — A full run is reproducible, channel-isolated and structurally complete
@@ -85,6 +86,17 @@ theorem radio_independent_of_optical (f : Flags) (z : Sizes) (o : Bool) (s : Sta
 above; the harness measures it on the real code) -/
 theorem signal_stages_draw_nothing (f : Flags) (z : Sizes) :
     draws f z .eas = 0 ∧ draws f z .mcOpt = 0 ∧ draws f z .mcRad = 0 ∧ draws f z .initPos = 0 := ⟨rfl, rfl, rfl, rfl⟩
+
+/-- **the scheduler is irrelevant to the shower stage's columns**: the only stage that runs under the task scheduler
+is the shower stage, whose batch call (C10) returns, for every valid schedule — any completion order, any worker
+assignment — the per-event results in input order; two runs that differ only in the schedule therefore store
+the same `numPEs` / `costhetaChEff` columns (all other stages run in the parent process, in the fixed order above) -/
+theorem scheduler_irrelevant {ε α β γ : Type} (f : α → Except ε (β × γ)) (g : α → β × γ) (xs : List α)
+    (hf : ∀ x ∈ xs, f x = .ok (g x)) (sched sched' : List Model.Sched.Completion)
+    (hv : C10.ValidSchedule (Model.Sched.partition 100 xs).length sched)
+    (hv' : C10.ValidSchedule (Model.Sched.partition 100 xs).length sched') :
+    Model.Sched.call f 100 xs sched = Model.Sched.call f 100 xs sched' := by
+  rw [C10.call_eq_map f g 100 (by decide) xs hf sched hv, C10.call_eq_map f g 100 (by decide) xs hf sched' hv']
 
 /-! ### non-vacuity: a default diffuse run with both channels and 5 survivors -/
 example : (run { target := false, power := false, optical := true, radio := true, iono := true } 5).columns.length = 16 := by decide
